@@ -7,9 +7,12 @@ import (
 	"context"
 	"fmt"
 	"io"
+	"runtime"
 	"sort"
 	"strconv"
 	"strings"
+	"sync"
+	"sync/atomic"
 	"time"
 
 	"github.com/postalsys/muti-metroo/internal/identity"
@@ -153,6 +156,10 @@ func init() {
 					return w.out("ok", "-", "-")
 				}
 			}
+			if f[0] == "race" {
+				n, _ := strconv.Atoi(f[2])
+				return w.out(c18Race(f[1], n), "-", "-")
+			}
 			id, _ := strconv.ParseUint(f[1], 10, 64)
 			st := w.streams[id]
 			switch f[0] {
@@ -285,6 +292,51 @@ func init() {
 	})
 }
 
+// c18Race runs, for n fresh open streams, HandleRemoteFinWrite against CloseWrite ("cw") or Close
+// ("close") in two goroutines released by a spin barrier, and checks that the final state is one a
+// serial order of the two calls (equivalently: any interleaving of their critical sections) can
+// produce: CLOSED, CanWrite()=false, both flags as set by the calls. Correct code always answers
+// "race-ok"; the first non-serialisable outcome is reported as race-bad:<state>/<lf>/<rf>/<cw>.
+func c18Race(kind string, n int) string {
+	for i := 0; i < n; i++ {
+		s := stream.NewStream(uint64(i)+1, identity.AgentID{1}, identity.AgentID{2}, 1)
+		s.Open()
+		var ready, goFlag atomic.Int32
+		var wg sync.WaitGroup
+		wg.Add(2)
+		run := func(delay int, f func()) {
+			defer wg.Done()
+			ready.Add(1)
+			for goFlag.Load() == 0 {
+			}
+			for d := 0; d < delay; d++ { // land at different offsets inside the other call
+				_ = goFlag.Load()
+			}
+			f()
+		}
+		go run(0, s.HandleRemoteFinWrite)
+		if kind == "cw" {
+			go run(i%97, s.CloseWrite)
+		} else {
+			go run(i%97, func() { s.Close() })
+		}
+		for ready.Load() != 2 {
+			runtime.Gosched()
+		}
+		if i%3 == 1 { // vary which goroutine is ahead
+			runtime.Gosched()
+		}
+		goFlag.Store(1)
+		wg.Wait()
+		sn := stream.C18Snapshot(s)
+		okFlags := sn.RemoteFin && (kind != "cw" || sn.LocalFin) && (kind != "close" || sn.Done)
+		if sn.State != stream.StateClosed || s.CanWrite() || !okFlags {
+			return fmt.Sprintf("race-bad:%s/%s/%s/%s", sn.State, c18b(sn.LocalFin), c18b(sn.RemoteFin), c18b(s.CanWrite()))
+		}
+	}
+	return "race-ok"
+}
+
 // c18Gen: (a) exhaustive frame sequences over {data, data+FIN, FIN, close, reset} up to a length,
 // each with the reader parked before every frame or not, hook release on; (b) random cases mixing
 // two streams, local CloseWrite/Close, OpenStream/ack, reads, hooked and plain frames; (c) the
@@ -335,6 +387,12 @@ func c18Gen(w *bufio.Writer, seed int64, tier string) {
 		}
 	}
 	rec(nil)
+	// concurrency stress of the half-close/close critical sections (see c18Race)
+	nRace := 30000
+	if tier == "thorough" {
+		nRace = 300000
+	}
+	fmt.Fprintf(w, "reset\nrace cw %d\nrace close %d\n", nRace, nRace)
 	// capacity: 64 chunks are accepted without a reader
 	fmt.Fprintf(w, "reset\naccept 1\n")
 	for i := 0; i < stream.C18ReadBufferCap(); i++ {
